@@ -67,6 +67,9 @@ InitCase ==
         case = C("XNPV", <<r, Col(W(v)), Col(Dates(43831, o))>>)
   \/ \E r \in Rates, o \in YearOffs(3), v \in [1..3 -> {-100, 10, 60}] :
         case = C("XNPV", <<r, Row(W(v)), Row(Dates(43831, o))>>)
+  \* the flows in a row and the dates in a column (and the other way round): the pairing is by position, not by orientation
+  \/ \E r \in Rates, o \in YearOffs(3) \cup OddOffs(3), v \in [1..3 -> {-100, 10, 60}], sw \in BOOLEAN :
+        case = C("XNPV", IF sw THEN <<r, Row(W(v)), Col(Dates(43831, o))>> ELSE <<r, Col(W(v)), Row(Dates(43831, o))>>)
   \* IRR by construction: root r, flows v chosen, first flow computed
   \/ \E r \in PosRates, k \in 1..MaxI : \E v \in [1..k -> FlowVals] :
         LET c0 == C0(r, W(v), [i \in 1..k |-> i])
